@@ -18,6 +18,7 @@ import (
 	"encoding/json"
 	"errors"
 	"fmt"
+	"reflect"
 	"strconv"
 	"strings"
 	"testing"
@@ -953,8 +954,31 @@ func (Prop) Gen(seed int64, tier string) *harness.Case {
 		}
 	}
 	wb, _ := json.Marshal(w)
-	return &harness.Case{Prop: "C09", Seed: seed, Tier: tier, Workload: wb, Events: evs,
-		Knobs: map[string]int{"nodes": g.nextID, "host_calls_fault_free": base.calls}, Source: Render(&w)}
+	knobs := map[string]int{"nodes": g.nextID, "host_calls_fault_free": base.calls}
+	if r.Intn(3) == 0 {
+		// the probe functions get a Go type of their own (one of 4000): whatever the interpreter keeps per function
+		// TYPE (how to call it, whether it is a script function) then sees many types in one process
+		knobs["ptype"] = 1 + r.Intn(4000)
+	}
+	return &harness.Case{Prop: "C09", Seed: seed, Tier: tier, Workload: wb, Events: evs, Knobs: knobs, Source: Render(&w)}
+}
+
+var (
+	tInt64 = reflect.TypeOf(int64(0))
+	tIface = reflect.TypeOf((*interface{})(nil)).Elem()
+)
+
+// probeOfType returns fn as a Go function of type func(int64, ...[n]int64) interface{}: callable exactly like
+// func(int64) interface{}, but a distinct Go type for every n.
+func probeOfType(n int, fn func(id int64) interface{}) interface{} {
+	ft := reflect.FuncOf([]reflect.Type{tInt64, reflect.SliceOf(reflect.ArrayOf(n, tInt64))}, []reflect.Type{tIface}, true)
+	return reflect.MakeFunc(ft, func(a []reflect.Value) []reflect.Value {
+		out := reflect.New(tIface).Elem()
+		if r := fn(a[0].Int()); r != nil {
+			out.Set(reflect.ValueOf(r))
+		}
+		return []reflect.Value{out}
+	}).Interface()
 }
 
 func (Prop) Run(t *testing.T, c *harness.Case, verbose bool) *harness.Result {
@@ -1007,6 +1031,10 @@ func (Prop) Run(t *testing.T, c *harness.Case, verbose bool) *harness.Result {
 	e := env.NewEnv()
 	e.Define("p", func(id int64) interface{} { return host("p:" + strconv.FormatInt(id, 10)) })
 	e.Define("p2", func(id int64, rest ...interface{}) interface{} { return host("p:" + strconv.FormatInt(id, 10)) })
+	if n := c.Knobs["ptype"]; n > 0 {
+		e.Define("p", probeOfType(n, func(id int64) interface{} { return host("p:" + strconv.FormatInt(id, 10)) }))
+		res.Counters["probe_function_of_its_own_go_type"]++
+	}
 	e.Define("pv", func(id int64, v interface{}) interface{} {
 		return host("v:" + strconv.FormatInt(id, 10) + ":" + fmt.Sprint(v))
 	})
